@@ -126,7 +126,8 @@ class G:
                 out.append("%s        pass" % ind)
                 return out
             out.append("%s    %s" % (ind, self.x()))
-            out += self.block(depth, ind + "    ", in_loop, True, in_handler)
+            # quarantine F26: no bare 'raise' directly in a finally clause (only inside handlers nested in it)
+            out += self.block(depth, ind + "    ", in_loop, True, False)
         return out
 
 
@@ -386,6 +387,9 @@ def minimise(v, ms, prop):
 
 def replay(payload):
     core.stage()
+    if payload.get("poscorpus"):
+        from . import poscorpus
+        return poscorpus.replay(payload)
     prop = payload["property"]
     name = payload["module"] if payload["module"].startswith("wit22") else payload["module"] + "_replay"
     name = name if name.startswith(("wl22_", "wit22")) else "wit22_" + name
@@ -499,7 +503,7 @@ def check_C22(tier):
                       "stub": ["probe/seam library deciding which call raises"]}
     rep.assumptions = ["CPython 3.12.1 executing the same source and plan is the reference", "message text of builtin exceptions is not compared",
                        "quarantine no_jump_out_of_finally (known finding F6): the grammar emits no break/continue/return lexically inside a finally clause"]
-    rep.quarantined = ["F6: no break/continue/return lexically inside finally"]
+    rep.quarantined = ["F6: no break/continue/return lexically inside finally", "F26: no bare 'raise' directly inside a finally clause that is itself inside an except handler"]
     budget = core.env_budget(60 if tier == "quick" else 900)
     viol, mods, cfg = explore(rep, prop, seed, tier, "base", budget=budget)
     core.replay_known(prop, replay, rep)
@@ -525,12 +529,21 @@ def check_C44(tier):
                 "non-trivial = an injected raise fired; distinct = (module, function, arg, plan) digest")
     rep.components = {"real": ["__PYX_ERR / __Pyx_AddTraceback line bookkeeping in generated C", "Cython/Utility/Exceptions.c", "code object / line table creation"],
                       "stub": ["probe/seam library deciding which call raises"]}
-    rep.assumptions = ["SIM-part: only the traceback clause is decided; the position-table encoder (LineTable.py) clause is a pure function and NOT covered",
+    rep.assumptions = ["SIM-part: the traceback clause is decided by simulation; the code-object position clause is only sampled by an input-generation corpus (co_firstlineno == CPython's, decoded positions inside the object's own lines) and the LineTable.py encoder is not tested on its own",
                        "all generated statements are single-line, as the statement's quantifier says"]
     budget = core.env_budget(60 if tier == "quick" else 900)
     viol, mods, cfg = explore(rep, prop, seed, tier, "base", budget=budget, check_tb=True)
+    # second clause (code-object positions): input-generation corpus, not simulation (see poscorpus.py)
+    from . import poscorpus
+    pviol = poscorpus.check(rep, seed, 8 if tier == "quick" else 48)
     core.replay_known(prop, replay, rep)
     rep.determinism = {"seeds": 0, "mismatches": 0, "note": "shares the C22 runner whose self-check runs in the C22 check"}
     report_violations(rep, prop, seed, viol, mods, cfg)
+    seen_p = set()
+    for v in pviol:
+        if v["klass"] in seen_p:
+            continue
+        seen_p.add(v["klass"])
+        rep.violation("%s: %s" % (v["klass"], json.dumps(v["detail"])[:300]), dict(v, seed=seed, property=prop))
     rep.extra["clock"] = "none"
     return rep.finish()
